@@ -86,3 +86,8 @@ Definition check_1506 (fs : list field) : verdict :=
   | Some (c, []) => judge_iso c
   | _ => VBad 99 []
   end.
+
+(* 1507: one call of a SEQUENCE of parses through some entry point (fresh / reused includes map, same or different
+   main path, from files) — harness/c15c.go. Payload and judgement of 1501: the descriptor of a call must be the
+   elaboration of THAT call's content, whatever was parsed before. *)
+Definition check_1507 (fs : list field) : verdict := check_c15 1 fs.
